@@ -16,7 +16,7 @@ from ..seams import SimCrash
 
 KINDS = [('sdo', 6), ('sco', 2), ('marking', 1), ('custom', 2), ('unreg', 3), ('cobs', 1)]
 OPS = ['add', 'get', 'all_versions', 'query_all', 'query_type', 'query_id', 'save_load', 'restart', 'load_into', 'rebuild_memory',
-       'load_single', 'query_ts']
+       'load_single', 'query_ts', 'stray']
 FORMS_M = ['single', 'single', 'list', 'bundle_obj', 'bundle_dict']
 FORMS_F = ['single', 'single', 'list', 'bundle_obj', 'bundle_dict', 'text', 'bundle_text']
 
@@ -27,7 +27,7 @@ class C11(Profile):
     owns_registries = True
     tiers = {'quick': 3000, 'thorough': 300000}
     wall_cap = {'quick': 1200, 'thorough': 6 * 3600}
-    probes = ['older_version_added_after_newer', 'bundle_form', 'text_form', 'unregistered_dict_versioned',
+    probes = ['stray_entry_in_store_directory', 'older_version_added_after_newer', 'bundle_form', 'text_form', 'unregistered_dict_versioned',
               'save_dir_path', 'torn_write_then_restart', 'enospc_mid_list', 'exact_readd', 'read_under_torn_file', 'failed_write_cleaned_up', 'timestamp_filter_respelled',
               'save_load_compared', 'utf16_save', 'bundlify_store', 'fault_on_read_fired', 'mixed_versions_in_memory',
               'add_resolved_by_observation', 'same_instant_respelled', 'loaded_into_nonempty_store', 'memory_store_constructed_with_data', 'single_object_file_loaded', 'file_vanished_under_reader']
@@ -61,7 +61,7 @@ class C11(Profile):
         pool = SW.gen_pool(rng, index, n_ids, rng.choice([1, 2, 3, 5]), KINDS, digits_mixed=cfg['spelling_knob'],
                            upper_ids=rng.choice([0, 0, 0.3, 1.0]))
         kinds = U.swarm_weights(rng, OPS, keep=0.8, must=('add',))
-        kinds = [(k, w * (4 if k == 'add' else 1) * (0.3 if k in ('save_load', 'restart', 'load_into', 'rebuild_memory', 'load_single') else 1)) for k, w in kinds]
+        kinds = [(k, w * (4 if k == 'add' else 1) * (0.3 if k in ('save_load', 'restart', 'load_into', 'rebuild_memory', 'load_single', 'stray') else 1)) for k, w in kinds]
         ops = []
         nops = rng.randrange(5, 41)
         for _ in range(nops):
@@ -96,6 +96,8 @@ class C11(Profile):
                               prop=rng.choice(['modified', 'modified', 'created']))
                 if faults and op['store'] == 'F' and rng.random() < 0.3:
                     op['fault'] = SW.gen_fault(rng, SW.READ_FAULTS)
+            elif kind == 'stray':
+                op.update(k=rng.randrange(n_ids), n=rng.randrange(100), where=rng.choice(['type', 'type', 'type', 'skeleton', 'root']))
             elif kind == 'query_all':
                 op.update(store=rng.choice(['M', 'F']))
                 if faults and op['store'] == 'F' and rng.random() < 0.3:
@@ -162,6 +164,8 @@ class C11(Profile):
                 self.op_load_single(sw, world, op)
             elif kind == 'repair':
                 self.op_repair(sw, world)
+            elif kind == 'stray':
+                sw.stray(op['k'], op['n'], op['where'])
             if kind != 'repair':
                 self.check_disk(sw, world, op)
 
